@@ -1,1 +1,50 @@
 import GolibsVerif.Model.Lock
+import GolibsVerif.Lemmas.LockBasic
+import GolibsVerif.Lemmas.LockInvA
+import GolibsVerif.Lemmas.LockInvB
+import GolibsVerif.Lemmas.LockWitness
+import GolibsVerif.Lemmas.LockLive
+/-
+The inductive invariant of the kvlock transition system (`Lock.Inv`, any `faults`) and its
+fault-free extension (`Lock.ILive`), with `Reach → Inv`.
+-/
+namespace Lock
+
+structure Inv (c : Cfg) (s : St) : Prop where
+  idle : IIdle s
+  own : IOwn s
+  ser : ISer c s
+  secTok : ISecTok c s
+  cnt1 : ICnt1 c s
+  cnt0 : ICnt0 c s
+  tokCnt : ITokCnt s
+  ver : IVer s
+  tokBack : ITokBack c s
+
+theorem Inv_init (c : Cfg) : Inv c St.init := by
+  constructor <;> simp [IIdle, IOwn, ISer, ISecTok, ICnt1, ICnt0, ITokCnt, IVer, ITokBack, St.init]
+
+theorem ILive_init : ILive St.init := by simp [ILive, St.init]
+
+theorem Inv_step (c : Cfg) (faults : Bool) (s t : St) (h : Step c false faults s t) (hi : Inv c s) : Inv c t where
+  idle := IIdle_step c faults s t h hi.idle
+  own := IOwn_step c faults s t h hi.idle hi.own
+  ser := ISer_step c faults s t h hi.idle hi.secTok hi.ser
+  secTok := ISecTok_step c faults s t h hi.idle hi.ser hi.secTok
+  cnt1 := ICnt1_step c faults s t h hi.idle hi.ser hi.secTok hi.cnt1
+  cnt0 := ICnt0_step c faults s t h hi.idle hi.ser hi.secTok hi.cnt0
+  tokCnt := ITokCnt_step c faults s t h hi.cnt0 hi.tokCnt
+  ver := IVer_step c faults s t h hi.ver
+  tokBack := ITokBack_step c faults s t h hi.idle hi.tokBack
+
+theorem Reach_Inv (c : Cfg) (faults : Bool) (s : St) (h : Reach c false faults s) : Inv c s := by
+  induction h with
+  | init => exact Inv_init c
+  | step _ hs ih => exact Inv_step c faults _ _ hs ih
+
+theorem Reach_ILive (c : Cfg) (s : St) (h : Reach c false false s) : ILive s := by
+  induction h with
+  | init => exact ILive_init
+  | step hr hs ih => exact ILive_step c _ _ hs (Reach_Inv c false _ hr).idle ih
+
+end Lock
